@@ -59,7 +59,8 @@ class Engine:
         self.pc = []
         self.fresh = 0
         self.log = []            # draw log, filled by the stubs
-        self.cache = {}          # cond id -> decided value
+        self.cache = {}          # canonical cond key -> decided value
+        self._ckmemo = {}
         self._keep = []
         self.model = None        # a model of pc (valid when not None)
         self.values = {}         # name -> z3 const, for replay extraction
@@ -152,14 +153,16 @@ class Engine:
             return True
         if z3.is_false(cond):
             return False
-        cid = cond.get_id()
+        # the cache key must not depend on z3's AST ids: the simplifier orders commutative arguments by id, so
+        # whether two equal-modulo-ordering conditions coincide could differ between a run and its replay
+        cid = self._ckey(cond)
         if cid in self.cache:
             return self.cache[cid]
         i = len(self.trace)
         if i < len(self.prefix):
             ch, alts, kind = self.prefix[i]
             if kind != 'B':
-                raise AssertionError('trace desync')
+                raise Inconclusive('engine: trace desync (branch where a choice was recorded)')
             self.trace.append((ch, alts, 'B'))
         else:
             self._ensure_model()
@@ -181,6 +184,30 @@ class Engine:
         self.assume(cond if ch else z3.Not(cond))
         return ch
 
+    _AC = None
+
+    def _ckey(self, e):
+        memo = self._ckmemo
+        k = e.get_id()
+        if k in memo:
+            return memo[k]
+        if Engine._AC is None:
+            Engine._AC = {z3.Z3_OP_ADD, z3.Z3_OP_MUL, z3.Z3_OP_AND, z3.Z3_OP_OR, z3.Z3_OP_EQ, z3.Z3_OP_DISTINCT}
+        if z3.is_app(e):
+            d = e.decl()
+            ch = [self._ckey(c) for c in e.children()]
+            if not ch:
+                r = str(e)
+            else:
+                if d.kind() in Engine._AC:
+                    ch = sorted(ch, key=repr)
+                r = (d.name(), tuple(ch))
+        else:
+            r = str(e)
+        memo[k] = r
+        self._keep.append(e)
+        return r
+
     def assume_quiet(self, c):
         # implied by pc: add for the simplifier's benefit without invalidating the model
         self.solver.add(c)
@@ -195,6 +222,8 @@ class Engine:
         i = len(self.trace)
         if i < len(self.prefix):
             ch, alts, kind = self.prefix[i]
+            if kind != 'C' or ch >= n or any(a >= n for a in alts):
+                raise Inconclusive('engine: trace desync (choice where a branch was recorded / different arity)')
         else:
             ch, alts = 0, list(range(1, n))
         self.trace.append((ch, alts, 'C'))
